@@ -92,8 +92,13 @@ def standin(rep: Report):
     srcs += ["$X = 1\n", "${'x'} = 2\n", "for $I in y: pass\n", "with a as $B: pass\n", "x = [$A for $A in y]\n", "$X, y = 1, 2\n", "($X) = 1\n", "*$R, x = [1, 2]\n",
              "(a.b) = 1\n", "del (a.b), (c[0])\n", "*a.b, c = x\n", "x = (a[i]) * 2\n", "x = *a[i], b\n", "() = x\n", "[] = x\n", "del ()\n", "def f(*a: *b): pass\n",
              "match x:\n    case [_, *_]: pass\n    case {**r}: pass\n", "with! a:\n    b c\n", "with! a as b: x y\n"]
+    # constructs continued on a later line inside brackets (spans cross lines; columns of the two lines are unrelated)
+    sugar_ml = ["a?\n  .b?", "a??\n .b?\n .c??", "$(ls\n        -l)", "![echo $H\n         /tmp]", "f!(x,\n y)", "${'a' +\n b}", "(a &&\n b)", "!(ls\n)", "g`a*`\n"]
+    for c in ["result = ({0})\n", "print('look it up:', {0})\n", "r = [1, 2, some.where, {0}\n]\n", "x = {{'k':\n {0}}}\n"]:
+        for s in sugar_ml:
+            srcs.append(c.format(s))
     srcs = list(dict.fromkeys(srcs))
-    res = oracle.run("parse", [{"src": s, "mode": "exec", "compile": True, "unparse": True} for s in srcs])
+    res = oracle.run("parse", [{"src": s, "mode": "exec", "compile": True, "unparse": True, "spans": True} for s in srcs])
     si = StandIn("compile-every-tree", f"{len(srcs)} sources (Python pool, xonsh pool, {len(sugar)} xonsh constructs x {len(ctx)} expression contexts, binding-target forms): "
                  "compile() must not report a malformed tree")
     for s, r in zip(srcs, res):
@@ -102,7 +107,9 @@ def standin(rep: Report):
             continue
         si.distinct_nontrivial += 1
         c = r.get("compile", "ok")
-        if c.startswith(("TypeError", "ValueError")):
+        if r.get("spans"):
+            si.failures.append({"input": s, "site": "bad-span", "what": "; ".join(r["spans"][:3]), "observed": r["spans"]})
+        elif c.startswith(("TypeError", "ValueError")):
             si.failures.append({"input": s, "site": "malformed-tree", "what": f"compile() reports a malformed tree: {c}", "observed": c})
         elif c.startswith("SyntaxError"):
             # semantic rejection is allowed only if the written-out Python is rejected too
